@@ -87,6 +87,62 @@ def job(a):
     return ninst, searched, states[0], bads, above_area, sorted(distinct_lb)
 
 
+def huge_family():
+    """
+    Thin bins with huge total areas; the optimum is known by construction.
+
+    Full-width strips fill one row each, the unit squares need ceil(e / row
+    capacity) more rows: optimum = ceil((r + ceil(e / W)) / H) for a W x H
+    bin with r strips W x 1 and e unit squares (e <= W).
+    """
+    fam = []
+    for (W, H) in ((10 ** 12, 1), (2 ** 40, 1), (3 * 10 ** 9, 2),
+                   (2 ** 31, 3), (10 ** 9 + 7, 1), (2 ** 52 + 1, 1)):
+        for r in (1, 2, 3, 99_999_999, 100_000_000 - 3, 2 ** 20 + 1):
+            for e in (1, 2, 7):
+                rows = [[W, 1, r], [1, 1, e]]
+                strips = r + 1  # e <= W unit squares fit into one more strip
+                opt = -(-strips // H)
+                fam.append((W, H, rows, opt))
+                if H > 1:
+                    fam.append((H, W, [[1, W, r], [1, 1, e]], opt))
+    return fam
+
+
+def check_huge(ctx):
+    cnt = 0
+    for (W, H, rows, opt) in huge_family():
+        try:
+            inst = C.make_instance(W, H, rows)
+        except (ValueError, OverflowError):
+            continue  # loudly refused (limits of the constructor)
+        cnt += 1
+        area = sum(r[0] * r[1] * r[2] for r in rows)
+        geo = -(-area // (W * H))
+        lb = int(inst.lower_bound_bins)
+        if inst.total_item_area != area:
+            ctx.violation("Instance|area or item count wrong",
+                          f"bin {W}x{H} items={rows}: total_item_area="
+                          f"{inst.total_item_area}, exact {area}",
+                          {"W": W, "H": H, "rows": rows, "huge": True})
+        if lb < geo:
+            ctx.violation("Instance|lower bound below the area bound",
+                          f"bin {W}x{H} items={rows}: lower_bound_bins={lb} "
+                          f"but ceil(area / bin area) = {geo} (exact integer "
+                          f"arithmetic)", {"W": W, "H": H, "rows": rows,
+                                           "huge": True})
+        if lb > opt:
+            ctx.violation("Instance|lower bound exceeds the optimum",
+                          f"bin {W}x{H} items={rows}: lower_bound_bins={lb} "
+                          f"but {opt} bins suffice (strips)",
+                          {"W": W, "H": H, "rows": rows, "huge": True})
+    ctx.add("evaluations", cnt)
+    ctx.add("traces_validated_against_impl", cnt)
+    ctx.part("huge_thin_bins", instances=cnt,
+             of_family=len(huge_family()))
+    ctx.log(f"huge thin bins: {cnt} instances with total areas up to 1e20")
+
+
 def specs(ctx):
     s = []
     if ctx.quick:
@@ -163,6 +219,7 @@ def run(ctx: Ctx) -> None:
     ctx.log(f"{ninst} instances, {above} with a bound above the area bound"
             f" decided by {searched} explicit-state searches ({states} "
             f"states)")
+    check_huge(ctx)
     ctx.cov["distinct_nontrivial"] = above
     ctx.cov["rule"] = (
         "all item multisets of size k (k<0: of |k| squares) for all bins "
@@ -181,6 +238,11 @@ def run(ctx: Ctx) -> None:
 def replay(ctx: Ctx, rep: dict) -> bool:
     W, H, rows = rep["W"], rep["H"], rep["rows"]
     inst = C.make_instance(W, H, rows)
+    if rep.get("huge"):
+        area = sum(r[0] * r[1] * r[2] for r in rows)
+        geo = -(-area // (W * H))
+        print(f"lower_bound_bins={inst.lower_bound_bins} area bound={geo}")
+        return geo <= inst.lower_bound_bins
     items = []
     for r in rows:
         items += [(r[0], r[1])] * r[2]
